@@ -199,11 +199,12 @@ def gen(ctx, mc, mp, twin=True):
 def run(ctx):
     ctx.rule = ("TLC enumerates every manifest filing images of a six-image pool (null/non-empty volume id, null/32-hex implanted md5, one/two "
                 "checksum types, sizes > 2^33, unified images with 0/1/2 additional variants, different disc numbers) into <= 2 (quick) cells "
-                "of 3 variants x 2 arches with <= 2/3 images per cell, the same image possibly in several cells, with the documented document; "
+                "of 3 variants x 2 arches with <= 2/3 images per cell (and one cell of up to 4/5), the same image possibly in several cells, with the documented document; "
                 "type/format rotate over all supported types and formats, arches over the whole table; built through Images.add, written, "
                 "compared by an independent JSON reader, read back comparing all fifteen attributes per image per cell, re-written byte for "
                 "byte. non-trivial = distinct (manifest, concretisation)")
     cases = gen(ctx, 2, 2 if ctx.quick else 3)
+    cases += gen(ctx, 1, 4 if ctx.quick else 5, twin=False)         # one crowded cell: the order of a longer list
     if not ctx.quick:
         cases += [c for i, c in enumerate(gen(ctx, 3, 2, twin=False)) if i % 4 == ctx.seed % 4]
     for i, c in enumerate(cases):
